@@ -128,9 +128,14 @@ def run_api(ctx, r, index):
                 chosen = r.sample(ids[1:], r.randint(0, len(ids) - 1)) \
                     if len(ids) > 1 else []
             elif cover == 'superset':
-                chosen = list(ids) + ['ghost1', 'ghost2']
+                longest = max(ids, key=len)
+                chosen = list(ids) + ['ghost1', longest + '0',
+                                      longest + '.rerun', ids[0] + 'x']
             else:
-                chosen = ['ghost1', 'ghost2']
+                longest = max(ids, key=len)
+                chosen = ['ghost1', longest + '0', ids[-1] + '_b']
+            chosen = [c for k, c in enumerate(chosen)
+                      if c not in chosen[:k]]
             mapping = {i: rand_entry(r, keys) for i in chosen}
             if 0 < len(set(chosen) & set(ids)) < len(ids) or \
                     cover == 'superset':
@@ -236,10 +241,10 @@ def gen_mapfile(r, ids, hdf5_safe=False, full_cover=False):
         lines.insert(r.randint(0, len(lines)), '')
     listed = list(ids)
     if not full_cover:
-        listed = r.sample(ids, r.randint(0, len(ids))) + ['ghost_%d' % k
-                                                          for k in range(
-                                                              r.randint(0,
-                                                                        2))]
+        longest = max(ids, key=len)
+        ghosts = ['ghost_0', longest + '0', longest + '.rerun', ids[0] + 'x']
+        listed = r.sample(ids, r.randint(0, len(ids))) + \
+            [g for g in r.sample(ghosts, r.randint(0, 3)) if g not in ids]
         if not listed:
             listed = [ids[0]]
     r.shuffle(listed)
